@@ -10,7 +10,8 @@ Driver for C04 (and the NSX share of C07/C08/C10).  One case per line, TAB separ
                            predicates against the merged target T → `status final verdicts [prefix states…]`
                            (P = 1: also the store after every prefix)
   class S T                the decidable side conditions (hypotheses of the theorems / finding signatures)
-  myers ALEN BLEN BITS     the Myers port on a 0/1 matrix (row major) → ranges and validity
+  load  N S                what LoadDevice keeps of S when listings come in pages of N (`loadPaged`)
+  myers ALEN BLEN BITS     the Myers port on a 0/1 matrix (row major) → ranges, validity, identity-on-equal
 -/
 namespace NA.Drv.C04
 open NA.Nsx NA.Nsx.Wire NA.IOUtil
@@ -63,7 +64,16 @@ def answer (line : String) : String :=
     | some S, some T =>
       " ".intercalate [flag "storeWF" (storeWF S), flag "addrsNodup" (addrsNodup S), flag "targetWF" (targetWF T),
         flag "policyIds" (policyIdsManaged T), flag "extRefs" (extRefsOK S T), flag "unmanagedIndep" (unmanagedIndep S),
-        flag "idsOK" (idsOK (load S) T), flag "sortTies" (sortTies T), flag "accepted" (accepted S T)]
+        flag "idsOK" (idsOK (load S) T), flag "sortTies" (sortTies T), flag "accepted" (accepted S T),
+        flag "compactS" (rulesCompact (load S)), flag "compactT" (rulesCompact T),
+        flag "distinctT" (distinctContent T.groups), flag "idemOK" (idemOK S T)]
+    | _, _ => "bad-input"
+  | ["load", n, s] =>
+    match n.toNat?, decConfig s with
+    | some n, some S =>
+      let L := loadPaged n S
+      "\t".intercalate [",".intercalate (L.policies.map fun p => p.id ++ ":" ++ ";".intercalate (p.rules.map (·.id))),
+        ",".intercalate (L.groups.map (·.id)), ",".intercalate (L.services.map (·.id))]
     | _, _ => "bad-input"
   | ["myers", a, b, bits] =>
     match a.toNat?, b.toNat? with
@@ -71,7 +81,10 @@ def answer (line : String) : String :=
       let m := bits.toList.toArray
       let eq (i j : Nat) : Bool := m.getD (i * bLen + j) '0' == '1'
       let rs := myers aLen bLen eq
-      s!"{encRanges rs}\t{b2s (validScript aLen bLen eq rs)}"
+      -- `IdOnEqual`: same lengths and an all-ones diagonal must give the single pairing range
+      let diag := aLen == bLen && (List.range aLen).all fun i => eq i i
+      let idOk := !diag || rs == [⟨0, aLen, 0, aLen⟩]
+      s!"{encRanges rs}\t{b2s (validScript aLen bLen eq rs)}\t{b2s idOk}"
     | _, _ => "bad-input"
   | _ => "bad-input"
 
